@@ -241,6 +241,9 @@ E4_CORPUS = [
     dict(name="g15_json_like", file="g15_json_like.rustemo", args=[], nq=4, nt=6),
     dict(name="g16_if_end", file="g16_if_end.rustemo", args=[], nq=4, nt=6),
     dict(name="g1_lalr", file="g1_expr.rustemo", args=["--table", "lalr"], nq=4, nt=5),
+    dict(name="g17_two_ctx", file="g17_two_ctx.rustemo", args=[], nq=5, nt=6),
+    dict(name="g17_lalr", file="g17_two_ctx.rustemo", args=["--table", "lalr"], nq=5, nt=6),
+    dict(name="g18_two_ctx_deep", file="g18_two_ctx_deep.rustemo", args=[], nq=6, nt=7),
 ]
 
 
